@@ -1347,6 +1347,57 @@ fn audit(cli: &Cli, n: u64, expect: Option<u64>) -> Vec<String> {
     hashes
 }
 
+/// NOT part of the check and NOT deterministic: two OS threads hammer the same
+/// id through two handles of one directory. Used once, by hand, to look at the
+/// behaviour C45 does not quantify over (concurrent use); see the report.
+fn race_probe(iters: u64, pool: &[SimKey]) -> ! {
+    let fs = FsSut::new().unwrap_or_else(|e| harness_error(&e.0));
+    let mut hs: Vec<FsStore> = Vec::new();
+    hs.push(fs.open_one().unwrap_or_else(|e| harness_error(&e.0)));
+    hs.push(hs[0].try_clone().unwrap_or_else(|e| harness_error(&e.to_string())));
+    let tallies: Vec<BTreeMap<String, u64>> = std::thread::scope(|s| {
+        let js: Vec<_> = hs
+            .into_iter()
+            .enumerate()
+            .map(|(t, mut h)| {
+                s.spawn(move || {
+                    let mut tally: BTreeMap<String, u64> = BTreeMap::new();
+                    let mut bump = |k: String| *tally.entry(k).or_insert(0) += 1;
+                    for i in 0..iters {
+                        match h.entry::<SimKey>(store_id(0)) {
+                            Err(e) => bump(format!("entry -> Err({e})")),
+                            Ok(Entry::Vacant(v)) => {
+                                if (i + t as u64) % 3 == 0 {
+                                    match v.insert(materialise(&simple_key(), pool)) {
+                                        Ok(()) => bump("vacant.insert -> Ok".into()),
+                                        Err(e) => bump(format!("vacant.insert -> Err({e})")),
+                                    }
+                                } else {
+                                    drop(v);
+                                    bump("vacant.drop".into());
+                                }
+                            }
+                            Ok(Entry::Occupied(o)) => match o.remove() {
+                                Ok(_) => bump("occupied.remove -> Ok".into()),
+                                Err(e) => bump(format!("occupied.remove -> Err({e})")),
+                            },
+                        }
+                    }
+                    tally
+                })
+            })
+            .collect();
+        js.into_iter().map(|j| j.join().expect("probe thread")).collect()
+    });
+    for (t, tally) in tallies.iter().enumerate() {
+        for (k, v) in tally {
+            println!("race-probe thread {t}: {v:>8}  {k}");
+        }
+    }
+    drop(fs);
+    std::process::exit(0);
+}
+
 fn main() {
     let mut cli = vcommon::parse_cli();
     if cli.property.is_empty() {
@@ -1378,6 +1429,10 @@ fn main() {
         let b = run_batch(cli.seed, cli.tier, runs, cli.jobs, runs, &pool);
         println!("LOGHASH {:016x} runs={} failing={}", b.log_hash, b.runs, b.failing_runs);
         std::process::exit(0);
+    }
+
+    if cli.extra.get("child").map(String::as_str) == Some("race-probe") {
+        race_probe(runs, &pool);
     }
 
     if cli.has_flag("audit") {
